@@ -15,7 +15,9 @@ from . import common, rustwl
 
 RULE = ("(S1/S2, judged on every input) random bytes, token soup from the grammar's terminals, token-level mutants "
         "of generator descriptions (delete / duplicate / swap / integer -> 0, 2^63, 2^64-1, 2^64 / identifier -> "
-        "keyword / brace imbalance / truncation / repetition) and parsable-but-absurd files (widths 0 and > 64, "
+        "keyword / brace imbalance / truncation / repetition), AST-level mutants that stay parsable (every reference "
+        "- constraint, condition, size/count/element-size target, element type, parent, group use - retargeted to "
+        "another identifier of any kind, widths moved, fields transplanted) and parsable-but-absurd files (widths 0 and > 64, "
         "self references, long chains) through parse_inline and analyze under catch_unwind with crash, stack and "
         "time monitors; (S3, judged inside each backend's documented construct set) every accepted generator "
         "description of every profile, both endiannesses, through json / rust / python / cxx / java generation; "
@@ -82,6 +84,98 @@ def mutants(text, rng, n):
                 t[j] = rng.choice(INTS + PUNCT)
             lab = "multi"
         out.append((_join(t)[:65536], lab))
+    return out
+
+
+def ast_mutants(f, rng, n):
+    """Semantic (still parsable) mutants of a generator description: every *reference* — constraint
+    id / tag, condition id, size / count / element-size target, typedef / array element type, parent,
+    group use, fixed enum — is retargeted to another identifier of the file regardless of its kind,
+    widths and counts are moved, fields are copied between declarations. Token soup rarely gets past
+    the parser; these reach the analyzer passes behind the identifier checks."""
+    import copy
+    out = []
+    for _ in range(n):
+        g = copy.deepcopy(f)
+        decls = [d for d in g["declarations"]]
+        ids = [d["id"] for d in decls if "id" in d]
+        with_fields = [d for d in decls if d.get("fields")]
+        if not with_fields:
+            break
+        d = rng.choice(with_fields)
+        scope = []          # field ids visible from d (own + ancestors)
+        dm = A.decl_map(g)
+        for x in [d] + A.parents_of(dm, d):
+            scope += [A.field_id(fl) for fl in x.get("fields", ()) if A.field_id(fl)]
+        scope = scope or ["x"]
+        k = rng.random()
+        lab = "ast:"
+        try:
+            if k < 0.2 and d.get("parent_id"):
+                anc = [A.field_id(fl) for x in A.parents_of(dm, d) for fl in x.get("fields", ()) if A.field_id(fl)]
+                tgt = rng.choice(anc or scope)
+                if rng.random() < 0.5:
+                    c = A.constraint(tgt, value=rng.choice([0, 1, 255, 1 << 40]))
+                else:
+                    tags = [t["id"] for e in decls if e["kind"] == "enum_declaration" for t in e["tags"]]
+                    c = A.constraint(tgt, tag_id=rng.choice(tags or ["X"]))
+                if d["constraints"] and rng.random() < 0.5:
+                    d["constraints"][rng.randrange(len(d["constraints"]))] = c
+                else:
+                    d["constraints"].append(c)
+                lab += "constraint-retarget"
+            elif k < 0.32:
+                fl = rng.choice(d["fields"])
+                fl["cond"] = A.constraint(rng.choice(scope), value=rng.choice([0, 1, 1, 2]))
+                lab += "cond-retarget"
+            elif k < 0.47:
+                hdr = [fl for fl in d["fields"] if fl["kind"] in ("size_field", "count_field", "elementsize_field")]
+                tgt = rng.choice(scope + ["_payload_", "_body_"])
+                if hdr and rng.random() < 0.6:
+                    rng.choice(hdr)["field_id"] = tgt
+                else:
+                    mk = rng.choice([A.size_f, A.count_f, A.elementsize_f])
+                    d["fields"].insert(rng.randrange(len(d["fields"]) + 1), mk(tgt, rng.choice([1, 4, 8, 16, 64])))
+                lab += "header-retarget"
+            elif k < 0.6:
+                cand = [fl for fl in d["fields"] if fl.get("type_id")]
+                if cand:
+                    rng.choice(cand)["type_id"] = rng.choice(ids)
+                lab += "type-retarget"
+            elif k < 0.68:
+                d["parent_id"] = rng.choice(ids) if "parent_id" in d else None
+                lab += "parent-retarget"
+            elif k < 0.76:
+                cand = [fl for fl in d["fields"] if "width" in fl and fl["width"] is not None]
+                if cand:
+                    rng.choice(cand)["width"] = rng.choice([0, 1, 3, 7, 8, 9, 63, 64, 65, 128])
+                lab += "width"
+            elif k < 0.84:
+                other = rng.choice(with_fields)
+                d["fields"].insert(rng.randrange(len(d["fields"]) + 1), copy.deepcopy(rng.choice(other["fields"])))
+                lab += "field-transplant"
+            elif k < 0.9:
+                i = rng.randrange(len(d["fields"]))
+                j = rng.randrange(len(d["fields"]))
+                d["fields"][i], d["fields"][j] = d["fields"][j], d["fields"][i]
+                lab += "field-swap"
+            elif k < 0.95:
+                grp = [x["id"] for x in decls if x["kind"] == "group_declaration"] or ids
+                d["fields"].insert(rng.randrange(len(d["fields"]) + 1),
+                                   A.group_f(rng.choice(grp), [A.constraint(rng.choice(scope), value=1)] if rng.random() < 0.5 else []))
+                lab += "group-use"
+            else:
+                cand = [fl for fl in d["fields"] if fl["kind"] == "array_field"]
+                if cand:
+                    a = rng.choice(cand)
+                    a["size"] = rng.choice([0, 1, 2, 1 << 32, (1 << 61) + 1])
+                    if rng.random() < 0.3:
+                        a["size_modifier"] = "+%d" % rng.choice([0, 1, 300])
+                lab += "array-size"
+            text, _ = render.render(g)
+        except Exception:
+            continue
+        out.append((text[:65536], lab))
     return out
 
 
@@ -152,6 +246,9 @@ ANALYZER_HAZARDS = [
     ("array-size-overflow", "packet P { a: 64[4611686018427387904] }"),
     ("padding-size-overflow", "packet P { a: 8[], _padding_[18446744073709551615] }"),
     ("chain-typedef-20000", None),
+    # found by a sub-agent while seeding changes: after desugar_flags the condition flag is no longer a
+    # scalar field and check_constraint has no arm for it
+    ("constraint-on-condition-flag", "packet P { c: 1, _reserved_: 7, x: 8 if c = 1, _payload_ } packet C : P (c = 1) { y: 8 }"),
 ]
 
 # constructs inside a backend's documented set, written by hand; (label, backends, source)
@@ -274,9 +371,22 @@ def scope_label(label):
 
 
 def _sig(p):
-    loc = re.sub(r"^.*/pdl-compiler/src/", "", p.get("loc", "?"))
+    full = p.get("loc", "?")
+    loc = re.sub(r"^.*/pdl-compiler/src/", "", full)
     loc = re.sub(r":\d+$", "", loc)
-    return "%s %s" % (loc, rustwl.norm_msg(p.get("msg", "")))
+    sig = "%s %s" % (loc, rustwl.norm_msg(p.get("msg", "")))
+    if "unreachable" in p.get("msg", ""):
+        # several unreachable!() arms per file share one message: tell them apart by the text of
+        # the source line (stable under line shifts, unlike the number)
+        m = re.match(r"^(.*?):(\d+)(?::\d+)?$", full)
+        if m:
+            path = m.group(1) if os.path.isabs(m.group(1)) else os.path.join(build.REPO, m.group(1))
+            try:
+                line = open(path).read().split("\n")[int(m.group(2)) - 1]
+                sig += " at:" + re.sub(r"\s+", " ", line.strip())[:60]
+            except (OSError, IndexError):
+                pass
+    return sig
 
 
 def fuzz_worker(task):
@@ -292,6 +402,7 @@ def fuzz_worker(task):
         g = gen.generate(sd, prof)
         text, _ = render.render(g["file"])
         stage_texts(drv, [(m, "mutant:" + lab) for m, lab in mutants(text, rng, nmut)], res, V, None)
+        stage_texts(drv, [(m, "mutant:" + lab) for m, lab in ast_mutants(g["file"], rng, nmut)], res, V, None)
     stage_texts(drv, soup(rng, nsoup), res, V, None)
     drv.close()
     res["nontrivial"] = sorted(res["nontrivial"])
